@@ -1,6 +1,7 @@
 //! Data properties: C10, C11, C14-C19 (see /verif/DESIGN.md §7). A library so that the
 //! coverage-guided drivers in harness/fuzz can call the same oracles as the campaigns.
 pub mod c10;
+pub mod c10_java;
 pub mod c11;
 pub mod c14;
 pub mod c15;
